@@ -45,15 +45,20 @@ def structure_case(ctx):
     return out, {'nx': nx, 'nu': nu, 'rho': str(rho)}
 
 
-def oracle_fit(ctx, thorough):
+def oracle_fit(ctx, thorough, forced=None):
     """end-to-end with cvxopt: eigenvalues of the returned A within the bound, objective log non-increasing"""
     rng = ctx.rng
     nx, nu = rng.randint(1, 4 if thorough else 3), rng.randint(0, 2)
-    radius = rng.choice([0.6, 1.0, 1.15])
-    X, kw, A0, B0 = lc.lin_data(rng, nx, nu, radius=radius, noise=rng.choice([0.0, 0.02, 0.1]))
+    radius = rng.choice([0.6, 1.0, 1.15, 1.4])
     rho = rng.choice([0.5, 0.8, 1.0, 1.2])
+    if forced is not None:
+        rho, radius = forced[0], forced[1]          # bound above one AND data more unstable than the bound: the constraint is active
+        nx, nu = rng.randint(1, 2), 1
+    X, kw, A0, B0 = lc.lin_data(rng, nx, nu, radius=radius, noise=rng.choice([0.0, 0.02, 0.1]), n_min=10 if radius > 1.2 else 12)
     max_iter = rng.choice([1, 2, 5] + ([20] if thorough else []))
     fam = rng.choice(['edmd', 'dmdc'])
+    if forced is not None and len(forced) > 2:
+        fam = forced[2]
     if fam == 'edmd':
         reg = lmi.LmiEdmdSpectralRadiusConstr(spectral_radius=rho, max_iter=max_iter, alpha=rng.choice([0, 0.1]),
                                               inv_method=rng.choice(['svd', 'chol']), solver_params=dict(lc.SOLVER))
@@ -145,8 +150,10 @@ def run(ctx):
             ctx.mismatch('returned P_ is not the P of the sub-problem-B answer the machine names', case,
                          np.asarray(reg.P_).tolist(), [pi, wantP.tolist()])
     # (iii) end to end
-    for i in range(ctx.n(30, 500)):
-        why, case, note = oracle_fit(ctx, ctx.tier == 'thorough')
+    sweeps = [(rho, rad, fam) for rho in (1.1, 1.2) for rad in (1.4,) for fam in ('edmd', 'dmdc')] + \
+             [(0.7, 1.4, 'edmd'), (0.7, 1.4, 'dmdc')]
+    for i in range(ctx.n(30, 500) + len(sweeps)):
+        why, case, note = oracle_fit(ctx, ctx.tier == 'thorough', forced=sweeps[i] if i < len(sweeps) else None)
         ctx.count('fit:' + case['family'])
         if note:
             ctx.count('fit_note:' + lc.stop_category(note) if not note.startswith('fit did not') else 'fit_incomplete')
